@@ -60,8 +60,10 @@ package knative
 //@   note trust: the pod listing with label selector (opaque client.ListOption values) and the scan of its result are an API read; assumed to be a function of (namespace, revision name) and cluster state
 //@ end
 
-//@ define minScaleStr(rev *unstructured.Unstructured) string = defaultgrouper.ownerAnnotations(rev)[knativeMinScaleAnnotation]
-//@ define minScale(rev *unstructured.Unstructured) int = ite((knativeMinScaleAnnotation in defaultgrouper.ownerAnnotations(rev)) && tuple1(strconv.Atoi(minScaleStr(rev))) == nil, tuple0(strconv.Atoi(minScaleStr(rev))), 1)
+// ENGINE LIMIT: strconv.Atoi is an uninterpreted function of the string (Atoi("1") == 1 is not known), so the default is
+// written as the code writes it: the annotation value, or the literal "1", parsed; 1 when that does not parse.
+//@ define minScaleStr(rev *unstructured.Unstructured) string = ite(knativeMinScaleAnnotation in defaultgrouper.ownerAnnotations(rev), defaultgrouper.ownerAnnotations(rev)[knativeMinScaleAnnotation], "1")
+//@ define minScale(rev *unstructured.Unstructured) int = ite(tuple1(strconv.Atoi(minScaleStr(rev))) == nil, tuple0(strconv.Atoi(minScaleStr(rev))), 1)
 
 // C18 (gang-scheduled revision): one PodGroup per Revision, owned by and named after the Revision; the minimum is the
 // Revision's min-scale annotation (1 when absent or not a number). Functions of the Revision object and pod template.
@@ -96,4 +98,30 @@ package knative
 //@   ensures [annotations] defaultgrouper.baseAnnotations(result0, revision, pod)
 //@   ensures [priorityInference] result0.PriorityClassName == constants.InferencePriorityClass
 //@   ensures [rest] result0.Preemptibility == "" && len(result0.SubGroups) == 0 && result0.Topology == "" && result0.RequiredTopologyLevel == "" && result0.PreferredTopologyLevel == ""
+//@ end
+
+// C18: the Knative metadata is a function of the REVISION named by the pod template's serving.knative.dev/revision label
+// (as stored in the cluster), of the pod template, of the gang-scheduling switch and - for old revisions - of whether the
+// revision already has per-pod groups (cluster state). C10: a missing label / unreadable revision is an error.
+//@ define revOf(pod *v1.Pod) *unstructured.Unstructured = defaultgrouper.stored(defaultgrouper.apiVersionOf("serving.knative.dev", "v1"), "Revision", pod.Namespace, pod.Labels[knativeRevisionLabel])
+//@ define revErr(pod *v1.Pod) bool = defaultgrouper.getErr(defaultgrouper.apiVersionOf("serving.knative.dev", "v1"), "Revision", pod.Namespace, pod.Labels[knativeRevisionLabel]) != nil
+//@ define revBC(pod *v1.Pod) bool = bcRevision(defaultgrouper.ownerNamespace(revOf(pod)), defaultgrouper.ownerName(revOf(pod)))
+//@ define revBCFails(pod *v1.Pod) bool = bcFails(defaultgrouper.ownerNamespace(revOf(pod)), defaultgrouper.ownerName(revOf(pod)))
+//@ define perPod(g *KnativeGrouper, pod *v1.Pod) bool = !g.gangSchedule || revBC(pod)
+//@ func (*KnativeGrouper).GetPodGroupMetadata
+//@   props C18 C10
+//@   requires g != nil && g.client != nil && g.DefaultGrouper != nil && pod != nil
+//@   ensures [errIff] (result1 != nil) == (!(knativeRevisionLabel in pod.Labels) || revErr(pod) || (g.gangSchedule && revBCFails(pod)))
+//@   ensures [errorNoMetadata] result1 != nil ==> result0 == nil
+//@   ensures [fresh] result1 == nil ==> result0 != nil && fresh(result0)
+//@   ensures [name] result1 == nil ==> result0.Name == ite(perPod(g, pod), fmt.Sprintf("%s-%s-%s", constants.PodGroupNamePrefix, pod.Name, pod.UID), defaultgrouper.pgName(revOf(pod)))
+//@   ensures [ownerPerPod] result1 == nil && perPod(g, pod) ==> result0.Owner.APIVersion == pod.APIVersion && result0.Owner.Kind == pod.Kind && result0.Owner.Name == pod.Name && result0.Owner.UID == pod.UID
+//@   ensures [ownerRevision] result1 == nil && !perPod(g, pod) ==> defaultgrouper.baseOwnerRef(result0, revOf(pod))
+//@   ensures [namespace] result1 == nil ==> result0.Namespace == ite(perPod(g, pod), pod.Namespace, defaultgrouper.ownerNamespace(revOf(pod)))
+//@   ensures [minAvailable] result1 == nil ==> result0.MinAvailable == ite(perPod(g, pod), 1, minScale(revOf(pod)))
+//@   ensures [priority] result1 == nil ==> result0.PriorityClassName == ite(perPod(g, pod), constants.InferencePriorityClass, defaultgrouper.ownerPrio(g.DefaultGrouper, revOf(pod), pod, constants.InferencePriorityClass))
+//@   ensures [queue] result1 == nil ==> result0.Queue == defaultgrouper.queueOf(g.DefaultGrouper, revOf(pod), pod)
+//@   ensures [labels] result1 == nil ==> defaultgrouper.baseLabels(result0, revOf(pod), pod)
+//@   ensures [annotations] result1 == nil ==> defaultgrouper.baseAnnotations(result0, revOf(pod), pod)
+//@   ensures [rest] result1 == nil ==> result0.Preemptibility == "" && len(result0.SubGroups) == 0 && result0.Topology == ""
 //@ end
